@@ -74,6 +74,10 @@ def run(ctx, b, broken):
         # typedef names usable after including headers in random subsets / orders
         for _ in range(20 if ctx.tier == "quick" else 300):
             sub = ctx.rng.sample(headers, ctx.rng.randint(1, 6))
+            # the internal helper files (_fake_defines.h, _fake_typedefs.h, X11/_X11_fake_*.h) are not libc headers:
+            # make sure at least one real header (which pulls in the central typedef list) is present
+            if all(os.path.basename(h).startswith("_") for h in sub):
+                sub.append(ctx.rng.choice([h for h in headers if not os.path.basename(h).startswith("_")]))
             src = os.path.join(tmp, "subset.c")
             with open(src, "w") as f:
                 f.write("".join(f"#include <{h}>\n" for h in sub))
